@@ -29,7 +29,7 @@ import (
 func init() {
 	Register(&Monitor{
 		ID: "C14",
-		Rule: "library: a -race build of the harness runs rounds with a barrier start in which N in {2,4,8,16} goroutines execute PRNG-chosen (expression, start node) tasks from a shared pool against two cursor trees, one set of compiled Grammars and shared binding objects (the same ContextApply closure assigning the same maps CLI-style, the same NodeSet variables and a custom function returning one shared slice — fresh per round, reverse-ordered and with spare capacity); each goroutine keeps its results privately and after Wait every result is compared with the serial baseline computed before the round; race reports are read from GORACE log files (exit codes are not trusted), counted and de-duplicated by the xsel frames involved; a report with a frame in xsel code is a violation, one entirely in harness code makes the run inconclusive. " +
+		Rule: "library: a -race build of the harness runs rounds with a barrier start in which N in {2,4,8,16} goroutines execute PRNG-chosen (expression, start node) tasks from a shared pool against two cursor trees, one set of compiled Grammars and shared binding objects (the same ContextApply closure assigning the same maps CLI-style, the same NodeSet variables and a custom function returning one shared slice, and Unmarshal calls that all pass one option slice variadically — fresh per round, reverse-ordered and with spare capacity); each goroutine keeps its results privately and after Wait every result is compared with the serial baseline computed before the round; race reports are read from GORACE log files (exit codes are not trusted), counted and de-duplicated by the xsel frames involved; a report with a frame in xsel code is a violation, one entirely in harness code makes the run inconclusive. " +
 			"CLI: the command built with -race -tags verif runs over generated file sets (unique id per file, empty results, outputs larger than a pipe buffer, malformed and unreadable files, files in a default or prefixed namespace with unqualified descendants next to files in no namespace) with -c 1 and -c N (N in {2,4,16,64}), -a/-m/-n variants and XSEL_VERIF_YIELD seeds; oracle: the -c N stdout cut into per-file blocks by the unique ids is a permutation of the -c 1 blocks, each block contiguous and byte-identical, stderr lines equal as multisets, no race report. distinct_nontrivial = distinct (goroutine count, completion-order hash) interleavings observed plus distinct CLI configurations",
 		Assumptions: []string{"only interleavings that the scheduler (plus injected yields) produced are covered", "the race detector reports only races on accesses that actually executed"},
 		NCases:      func(tier string) int { return 0 },
@@ -135,6 +135,18 @@ func ChildC14Lib(seed uint64, rounds int) int {
 				tasks = append(tasks, c14Task{i, 0, true}, c14Task{i, g.Intn(len(m2.Order)), true})
 			}
 		}
+		// Unmarshal through one option slice that all goroutines pass variadically (expr == -1)
+		// (the entries only install the shared read-only maps: a With... helper after them would write into those maps itself)
+		noop := func(c *xsel.ContextSettings) { _ = len(c.Variables) }
+		sharedOpts := []xsel.ContextApply{apply, noop, noop}
+		for k := 0; k < 4; k++ {
+			tasks = append(tasks, c14Task{-1, g.Intn(len(m.Order)), false})
+		}
+		unmarshalKey := func(c xsel.Cursor, opts ...xsel.ContextApply) string {
+			var t c13T1
+			err := xsel.Unmarshal(xsel.NodeSet{c}, &t, opts...)
+			return fmt.Sprintf("unmarshal:%+v|%v", t, err != nil)
+		}
 		startNode := func(t c14Task) xsel.Cursor {
 			if t.doc2 {
 				return m2.Order[t.start]
@@ -153,6 +165,10 @@ func ChildC14Lib(seed uint64, rounds int) int {
 		}
 		baseline := make([]string, len(tasks))
 		for i, t := range tasks {
+			if t.expr < 0 {
+				baseline[i] = unmarshalKey(startNode(t), baseApply)
+				continue
+			}
 			res, err := Exec(startNode(t), grammars[t.expr], baseApply)
 			baseline[i] = resultKey(res, err)
 		}
@@ -177,6 +193,10 @@ func ChildC14Lib(seed uint64, rounds int) int {
 				<-start
 				for _, ti := range order {
 					t := tasks[ti]
+					if t.expr < 0 {
+						mine = append(mine, unmarshalKey(startNode(t), sharedOpts...))
+						continue
+					}
 					res, err := Exec(startNode(t), grammars[t.expr], apply)
 					mine = append(mine, resultKey(res, err))
 				}
@@ -197,7 +217,11 @@ func ChildC14Lib(seed uint64, rounds int) int {
 				if results[w][k] != baseline[ti] {
 					mism++
 					if firstMism == "" {
-						firstMism = fmt.Sprintf("goroutine %d: Exec(node#%d, %s) = %s, serial result %s", w, tasks[ti].start, kept[tasks[ti].expr], trunc(results[w][k]), trunc(baseline[ti]))
+						what := "Unmarshal through the shared option slice"
+						if tasks[ti].expr >= 0 {
+							what = kept[tasks[ti].expr]
+						}
+						firstMism = fmt.Sprintf("goroutine %d: Exec(node#%d, %s) = %s, serial result %s", w, tasks[ti].start, what, trunc(results[w][k]), trunc(baseline[ti]))
 					}
 				}
 			}
